@@ -61,7 +61,16 @@ def partial_binding(cx: Cx, fn, term: Term, item: Term) -> Optional[tuple]:
     callee = cx.prog.functions.get(f.name[6:-1])
     if callee is None:
         return None
-    b = _Ctx(cx.walker, fn, WalkOptions()).bind_args(callee, None, list(term.args[2:]) + [item], dict(term.kw), State(), False)
+    kwd = dict(term.kw)
+    star = strip_versions(kwd.get('**')) if '**' in kwd else None
+    if isinstance(star, Fresh) and star.kind == 'dict' and star.items and \
+            all(isinstance(it, TupleT) and len(it.items) == 2 and isinstance(it.items[0], Const) and isinstance(it.items[0].value, str)
+                for it in star.items):
+        # partial(f, a, **{'k': v, ...}) with a dictionary written out in the same function
+        del kwd['**']
+        for it in star.items:
+            kwd[it.items[0].value] = it.items[1]
+    b = _Ctx(cx.walker, fn, WalkOptions()).bind_args(callee, None, list(term.args[2:]) + [item], kwd, State(), False)
     return (callee, b) if b is not None else None
 
 
